@@ -58,9 +58,9 @@ def run_tlc(job):
         out, rc = (e.stdout or b"").decode() if isinstance(e.stdout, bytes) else (e.stdout or ""), -9
     job["wall"] = time.time() - t0
     job["out"], job["rc"] = out, rc
-    m = re.search(r"(\d+) states checked, (\d+) traces generated", out)
-    job["states"] = int(m.group(1)) if m else 0
-    job["traces"] = int(m.group(2)) if m else 0
+    ms = re.findall(r"(\d+) states checked, (\d+) traces generated", out)  # TLC prints a progress line every minute: the last one counts
+    job["states"] = int(ms[-1][0]) if ms else 0
+    job["traces"] = int(ms[-1][1]) if ms else 0
     mv = re.search(r"Invariant (\w+) is violated", out)
     job["violated"] = mv.group(1) if mv else None
     job["error"] = None
